@@ -60,6 +60,13 @@ def configs(spec, rng, nextra):
                'mf': rng.random() < 0.7}
         if rng.random() < 0.3:
             cfg['rhs'] = rng.choice(RHS_VARIANTS)
+        if rng.random() < 0.4:
+            cfg['lazy'] = True          # partial values supplied by compute_partials / linearize, not by val=
+        if not cpl and rng.random() < 0.3:
+            # first-level groups become approx_totals (finite-difference) groups: with matrix-free components,
+            # implicit components, rows/cols partials inside, under every solver and jacobian format
+            cfg['approx'] = True
+            cfg['approx_any'] = True
         if cfg['lin'] in ('runonce', 'lbgs', 'lbjac'):
             cfg['jac'] = None           # block solvers do not support assembled jacobians
         if cfg['lin'].startswith('direct') and cfg['jac'] == 'csr':
@@ -97,7 +104,7 @@ class C01(Spec):
             'with indices, aliases, scaler/adder or ref/ref0 and units; each spec is run under the primary '
             'configuration in fwd and rev, with and without driver scaling, plus sampled configurations of '
             '{fwd,rev,auto} x {LinearRunOnce,LinearBlockGS,LinearBlockJac,DirectSolver,ScipyKrylov (top or per cycle)} x '
-            '{matrix-free / dict, dense, csc, csr} x {array,dict,flat_dict} x {NLBGS,Newton} x rhs_checking {off, True, option '
+            '{matrix-free / dict, dense, csc, csr} x {array,dict,flat_dict} x {NLBGS,Newton} x {partials by val=, by compute_partials/linearize} x {first-level groups as approx_totals groups} x rhs_checking {off, True, option '
             'dicts}; plus chains of responses that are positive / negative / unit multiples of other responses (and responses '
             'bypassing the sub-group) downstream of a sub-group DirectSolver / ScipyKrylov with rhs_checking, so that the '
             'linear-solution cache takes its equal / negated / parallel / anti-parallel / zero branches; a case is a distinct spec')
